@@ -3,14 +3,16 @@
 (* auth / x/paloma / x/feegrant / x/skyway state recorded after every block; `last` is the executed       *)
 (* request, `res` the class of what the chain reported (for a sale: "ok" iff the claims were attested AND  *)
 (* the licence appeared, "noop" iff attested without effect); gifts accumulates the successful gifts;      *)
-(* `lk` remembers the locked coins seen last.  Time is real: seconds since genesis.                        *)
+(* `lk` remembers the locked coins seen last.  Time is real: seconds since genesis.  Escrow, balances,      *)
+(* licences, original vesting and locked coins are bound PER DENOMINATION (1 = bond denom, 2 = uusdc).     *)
 (* Property monitors (MONFAIL, verdict): the invariants / step properties of LightNode on observed state;  *)
 (* the vesting window is checked through the driver's decoding of the real account (months between start   *)
 (* and end, elapsed fraction as reduced num/den): locked = orig - orig*num/den up to the one-coin rounding  *)
 (* of the SDK.  Conformance (CONFFAIL, drift only): the observed step equals the spec's own action.        *)
 EXTENDS LightNode, Json
 Trace == ndJsonDeserialize("trace.ndjson")
-FundsReal == <<3000000, 500000, 2000000>>
+\* <<bond denom, other denom>> per user
+FundsReal == << <<3000000, 1000000>>, <<500000, 2000000>>, <<2000000, 0>> >>
 FeeGranterIdx == 4
 VARIABLES l, lk
 tvars == <<vars, l, lk>>
@@ -24,27 +26,30 @@ Cl(o, c) == LET i == CHOOSE j \in DOMAIN o.cl : o.cl[j].c = c IN o.cl[i]
 AcctName(n) == CASE n = 0 -> "none" [] n = 1 -> "base" [] n = 2 -> "vesting" [] OTHER -> "other"
 
 Bind(o) ==
-  /\ escrow' = o.escrow
-  /\ lic' = [c \in {x \in Addrs : Cl(o, x).lic = 1} |-> [amt |-> Cl(o, c).lamt, months |-> Cl(o, c).lm]]
+  /\ escrow' = [d \in Denoms |-> o.escrow[d]]
+  /\ lic' = [c \in {x \in Addrs : Cl(o, x).lic = 1} |-> [amt |-> Cl(o, c).lamt, months |-> Cl(o, c).lm, den |-> Cl(o, c).lden]]
   /\ acct' = [c \in Fresh |-> AcctName(Cl(o, c).acct)]
-  /\ vest' = [c \in {x \in Addrs : Cl(o, x).acct = 2} |-> [start |-> Cl(o, c).start, end |-> Cl(o, c).end, orig |-> Cl(o, c).orig]]
-  /\ bal' = [a \in Users \cup Fresh |-> IF a \in Users THEN o.ubal[a] ELSE Cl(o, a).bal]
+  /\ vest' = [c \in {x \in Addrs : Cl(o, x).acct = 2} |-> [start |-> Cl(o, c).start, end |-> Cl(o, c).end, orig |-> Cl(o, c).orig, den |-> Cl(o, c).oden]]
+  /\ bal' = [a \in Users \cup Fresh |-> [d \in Denoms |-> IF a \in Users THEN o.ubal[a][d] ELSE Cl(o, a).bal[d]]]
   /\ clients' = {c \in Addrs : Cl(o, c).client = 1}
   /\ grants' = {c \in Addrs : Cl(o, c).grant = 1}
   /\ funders' = o.funders
   /\ feegr' = (o.feegr # 0)
   /\ sale' = [ch \in SaleChains |-> o.sc[ch]]
   /\ now' = o.now
-  /\ lk' = [c \in Addrs |-> Cl(o, c).locked]
+  /\ lk' = [c \in Addrs |-> [d \in Denoms |-> Cl(o, c).locked[d]]]
 
 \* |den*vested - orig*num| <= den with vested = orig - locked, whenever the products fit into TLC's integers
+\* only the denomination of the original vesting is ever locked
 LockedOK(r) ==
-  IF r.acct # 2 THEN r.locked = 0
-  ELSE /\ r.locked >= 0 /\ r.locked <= r.orig
-       /\ r.spendable = r.bal - r.locked \/ r.bal < r.locked
-       /\ (r.num = 0 => r.locked = r.orig)
-       /\ (r.num = r.den => r.locked = 0)
-       /\ (r.den <= 64 => LET v == r.orig - r.locked IN
+  IF r.acct # 2 \/ r.oden \notin Denoms THEN \A d \in Denoms : r.locked[d] = 0
+  ELSE LET lkd == r.locked[r.oden] IN
+       /\ \A d \in Denoms \ {r.oden} : r.locked[d] = 0 /\ r.spendable[d] = r.bal[d]
+       /\ lkd >= 0 /\ lkd <= r.orig
+       /\ r.spendable[r.oden] = r.bal[r.oden] - lkd \/ r.bal[r.oden] < lkd
+       /\ (r.num = 0 => lkd = r.orig)
+       /\ (r.num = r.den => lkd = 0)
+       /\ (r.den <= 64 => LET v == r.orig - lkd IN
                             /\ r.den * v <= r.orig * r.num + r.den
                             /\ r.den * v >= r.orig * r.num - r.den)
 
@@ -53,6 +58,7 @@ Monitors(e) == LET o == e.obs IN
   \* escrow = not yet activated licences + gifts; no licence outside the tracked addresses; nothing but the bond denom;
   \* coins are neither made nor lost; the fee granter pays nothing
   /\ Report("C18.EscrowCovers", /\ EscrowCovers' /\ o.nlic = Cardinality(DOMAIN lic') /\ o.escrowx = 0
+                                /\ \A c \in Addrs : Cl(o, c).balx = 0
                                 /\ Conserved /\ o.ubal[FeeGranterIdx] = Trace[1].obs.ubal[FeeGranterIdx])
   \* the address with an account never gets a licence, stays a plain account, is never registered
   /\ Report("C18.CreateOnlyFresh", /\ CreateOnlyFresh /\ LicenceStable
@@ -63,8 +69,9 @@ Monitors(e) == LET o == e.obs IN
         /\ ActivationMoves /\ ScheduleFixed
         /\ (res' = "ok" /\ e.act = "Register" /\ e.args.as \in DOMAIN lic) =>
               /\ Cl(o, e.args.as).endm = lic[e.args.as].months
-              /\ Cl(o, e.args.as).locked = lic[e.args.as].amt
-        /\ \A c \in Addrs : LockedOK(Cl(o, c)) /\ (c \in DOMAIN vest => Cl(o, c).locked <= lk[c]))
+              /\ lic[e.args.as].den \in Denoms
+              /\ Cl(o, e.args.as).locked[lic[e.args.as].den] = lic[e.args.as].amt
+        /\ \A c \in Addrs : LockedOK(Cl(o, c)) /\ (c \in DOMAIN vest => \A d \in Denoms : Cl(o, c).locked[d] <= lk[c][d]))
   /\ Report("C18.SaleOnlyIfConfigured", SaleOnlyIfConfigured)
   /\ Report("C18.FailureIsNoOp", FailureIsNoOp)
 
@@ -79,11 +86,11 @@ Class(cs, code) ==
 Coarse(w) == IF w \in {"licexists", "acctexists", "nolicense", "notfound"} THEN "err" ELSE w
 
 TrInit == IsEvent("Init") /\ LET e == Trace[l] IN
-  /\ Bind(e.obs) /\ gifts' = 0
-  /\ res' = "init" /\ last' = Rec("Init", 0, 0, 0, 0, 0, 0, 0, 0, "") /\ nops' = 0
+  /\ Bind(e.obs) /\ gifts' = ZeroD
+  /\ res' = "init" /\ last' = Rec("Init", 0, 0, 0, 0, 0, 0, 0, 0, "", 0) /\ nops' = 0
   /\ Report("C18.ObservedTypes", TypeOK' /\ EscrowCovers')
-  /\ Conf("Init", /\ escrow' = 0 /\ lic' = [c \in {} |-> 0] /\ acct' = [c \in Fresh |-> "none"] /\ vest' = [c \in {} |-> 0]
-                  /\ bal' = [a \in Users \cup Fresh |-> IF a \in Users THEN Funds[a] ELSE 0]
+  /\ Conf("Init", /\ escrow' = ZeroD /\ lic' = [c \in {} |-> 0] /\ acct' = [c \in Fresh |-> "none"] /\ vest' = [c \in {} |-> 0]
+                  /\ bal' = [a \in Users \cup Fresh |-> IF a \in Users THEN [d \in Denoms |-> Funds[a][d]] ELSE ZeroD]
                   /\ clients' = {} /\ grants' = {} /\ funders' = <<>> /\ ~feegr' /\ sale' = [ch \in SaleChains |-> 0]
                   /\ e.obs.nonce = <<0, 0>>)
 
@@ -92,8 +99,8 @@ ActEvent(failed) == /\ l <= Len(Trace) /\ Trace[l].act \in Acts
                     /\ (Trace[l].res = "blockfail") = failed /\ l' = l + 1
 
 SpecConf(e) == LET a == e.args IN
-  CASE e.act = "AddLicense" -> LET w == AddLicenseWhy(a.who, a.as, a.c, a.amt) IN
-                                 res' = Coarse(w) /\ AddLicenseEff(w, a.as, a.c, a.amt, a.m) /\ UNCHANGED cfgv
+  CASE e.act = "AddLicense" -> LET w == AddLicenseWhy(a.who, a.as, a.c, a.amt, a.d) IN
+                                 res' = Coarse(w) /\ AddLicenseEff(w, a.as, a.c, a.amt, a.m, a.d) /\ UNCHANGED cfgv
     [] e.act = "Register"   -> LET w == RegisterWhy(a.who, a.as) IN
                                  /\ res' = Coarse(w) /\ UNCHANGED cfgv
                                  /\ RegisterEff(w, a.as, now', IF w = "ok" /\ a.as \in DOMAIN vest' THEN vest'[a.as].end ELSE 0)
@@ -113,11 +120,11 @@ SpecConf(e) == LET a == e.args IN
 
 TrAct == ActEvent(FALSE) /\ LET e == Trace[l]  a == e.args IN
   /\ Bind(e.obs)
-  /\ last' = Rec(e.act, a.who, a.as, a.c, a.amt, a.m, a.ch, a.k, a.q, a.via)
+  /\ last' = Rec(e.act, a.who, a.as, a.c, a.amt, a.m, a.ch, a.k, a.q, a.via, IF e.act = "Sale" \/ e.act = "Gift" THEN Bond ELSE a.d)
   /\ res' = IF e.act = "Sale"
             THEN (IF e.res # "ok" THEN "fail" ELSE IF a.c \in DOMAIN lic' \ DOMAIN lic THEN "ok" ELSE "noop")
             ELSE (IF e.res = "ok" THEN "ok" ELSE Class(e.cs, e.code))
-  /\ gifts' = IF e.act = "Gift" /\ e.res = "ok" THEN gifts + a.amt * Unit ELSE gifts
+  /\ gifts' = IF e.act = "Gift" /\ e.res = "ok" THEN [gifts EXCEPT ![Bond] = @ + a.amt * Unit] ELSE gifts
   /\ nops' = nops + 1
   /\ Monitors(e)
   /\ ConfD(e.act, SpecConf(e), <<e.act, a, res', e.res, e.cs, e.code, e.log>>)
@@ -125,7 +132,7 @@ TrAct == ActEvent(FALSE) /\ LET e == Trace[l]  a == e.args IN
 \* a block that could not be finalised / committed at all
 TrBlockFail == ActEvent(TRUE) /\ UNCHANGED <<vars, lk>> /\ Report("C18.BlockFailure", FALSE)
 
-TraceInit == Init /\ l = 1 /\ lk = [c \in Addrs |-> 0]
+TraceInit == Init /\ l = 1 /\ lk = [c \in Addrs |-> ZeroD]
 TraceNext == TrInit \/ TrAct \/ TrBlockFail
 TraceAccepted == TLCGet("stats").diameter - 1 = Len(Trace)
 =============================================================================
